@@ -1,0 +1,39 @@
+//! Verification instrumentation (only with `--cfg nervusdb_verif`): a per-thread
+//! override of the wall-clock sample that node creation mixes into external ids.
+//! While samples are queued, each id allocation consumes one instead of reading
+//! the system clock; with an empty queue the system clock is used as always.
+use std::cell::RefCell;
+use std::collections::VecDeque;
+
+thread_local! {
+    static SAMPLES: RefCell<VecDeque<i64>> = const { RefCell::new(VecDeque::new()) };
+    static TAKEN: RefCell<Vec<i64>> = const { RefCell::new(Vec::new()) };
+}
+
+/// Queue clock samples (nanoseconds) for the next id allocations on this thread.
+pub fn push_samples(samples: &[i64]) {
+    SAMPLES.with(|q| q.borrow_mut().extend(samples.iter().copied()));
+}
+
+/// Drop the queued samples not yet consumed; returns how many were left.
+pub fn clear_samples() -> usize {
+    SAMPLES.with(|q| {
+        let n = q.borrow().len();
+        q.borrow_mut().clear();
+        n
+    })
+}
+
+/// The samples (overridden or real) used by id allocations on this thread so far.
+pub fn take_used() -> Vec<i64> {
+    TAKEN.with(|t| std::mem::take(&mut *t.borrow_mut()))
+}
+
+/// The timestamp used by node creation: the next queued sample, else the system clock.
+pub(crate) fn now_nanos() -> i64 {
+    let t = SAMPLES
+        .with(|q| q.borrow_mut().pop_front())
+        .unwrap_or_else(|| chrono::Utc::now().timestamp_nanos_opt().unwrap_or(0));
+    TAKEN.with(|u| u.borrow_mut().push(t));
+    t
+}
